@@ -16,7 +16,7 @@ import (
 //	query      := token (" " token)*
 //	token      := term | qualifier ":" value | "metadata" ":" key ":" value
 //	qualifier  := status | author | participant | actor | label | title | no | sort
-//	value/term := a word, or a double-quoted string for multi-word values
+//	value/term := a word, or a quoted string (see querylex.go: between quotes every character is data)
 //	status     := open | closed          no := label
 //	sort       := id | id-asc | id-desc | creation | creation-asc | creation-desc
 //	              | edit | edit-asc | edit-desc      (at most one)
@@ -27,6 +27,7 @@ type QToken struct {
 	Key   string `json:"key,omitempty"`
 	Value string `json:"value"`
 	Quote bool   `json:"quote,omitempty"` // render the value quoted even if it is a single word
+	SQ    bool   `json:"sq,omitempty"`    // quote with ' instead of " (when the value allows it)
 }
 
 // QExpect is what a query denotes.
@@ -69,52 +70,94 @@ var SortValues = []string{"id", "id-asc", "id-desc", "creation", "creation-asc",
 
 func needsQuote(v string) bool {
 	for _, r := range v {
-		if unicode.IsSpace(r) {
+		if unicode.IsSpace(r) || r == ':' || r == '"' || r == '\'' {
 			return true
 		}
 	}
 	return false
 }
 
-func renderValue(v string, force bool) (string, error) {
+// Expressible reports whether a value can be written in the documented
+// language: not empty, and (there is no escape mechanism) not containing both
+// quote characters.
+func Expressible(v string) bool {
+	return v != "" && !(strings.Contains(v, "\"") && strings.Contains(v, "'"))
+}
+
+// renderValue writes a value as a bare word when it can be one (no white space,
+// colon or quote character) and force is not set, else between quotes: the
+// style asked for (single when sq) unless the value contains that quote
+// character, then the other one. Returns the quote character used (0: bare).
+func renderValue(v string, force, sq bool) (string, rune, error) {
 	if v == "" {
-		return "", fmt.Errorf("empty value is not expressible")
+		return "", 0, fmt.Errorf("empty value is not expressible")
 	}
-	if strings.ContainsAny(v, "\"'") {
-		return "", fmt.Errorf("value %q with a quote is not expressible", v)
+	if !Expressible(v) {
+		return "", 0, fmt.Errorf("value %q with both quote characters is not expressible", v)
 	}
-	if strings.Contains(v, ":") {
-		return "", fmt.Errorf("value %q with a colon is outside the documented language", v)
+	if !force && !needsQuote(v) {
+		return v, 0, nil
 	}
-	if force || needsQuote(v) {
-		return `"` + v + `"`, nil
+	q := '"'
+	if sq {
+		q = '\''
 	}
-	return v, nil
+	if strings.ContainsRune(v, q) {
+		if q == '"' {
+			q = '\''
+		} else {
+			q = '"'
+		}
+	}
+	return string(q) + v + string(q), q, nil
 }
 
 // RenderQuery renders tokens in the given order, separated by single spaces.
 func RenderQuery(tokens []QToken) (string, error) {
 	parts := make([]string, 0, len(tokens))
 	for _, t := range tokens {
-		v, err := renderValue(t.Value, t.Quote)
+		s, err := RenderToken(t)
 		if err != nil {
 			return "", err
 		}
-		switch t.Kind {
-		case "search":
-			parts = append(parts, v)
-		case "status", "author", "actor", "participant", "label", "title", "no", "sort":
-			parts = append(parts, t.Kind+":"+v)
-		case "metadata":
-			if t.Key == "" || strings.ContainsAny(t.Key, "\"': \t") {
-				return "", fmt.Errorf("metadata key %q not expressible", t.Key)
-			}
-			parts = append(parts, "metadata:"+t.Key+":"+v)
-		default:
-			return "", fmt.Errorf("unknown token kind %q", t.Kind)
-		}
+		parts = append(parts, s)
 	}
 	return strings.Join(parts, " "), nil
+}
+
+// RenderToken renders one token.
+func RenderToken(t QToken) (string, error) {
+	v, _, err := renderValue(t.Value, t.Quote, t.SQ)
+	if err != nil {
+		return "", err
+	}
+	switch t.Kind {
+	case "search":
+		return v, nil
+	case "status", "author", "actor", "participant", "label", "title", "no", "sort":
+		return t.Kind + ":" + v, nil
+	case "metadata":
+		k, _, err := renderValue(t.Key, false, t.SQ)
+		if err != nil {
+			return "", fmt.Errorf("metadata key: %w", err)
+		}
+		return "metadata:" + k + ":" + v, nil
+	}
+	return "", fmt.Errorf("unknown token kind %q", t.Kind)
+}
+
+// QuoteStyle tells how the token's value is written: "bare", "dq" or "sq".
+func (t QToken) QuoteStyle() string {
+	_, q, err := renderValue(t.Value, t.Quote, t.SQ)
+	switch {
+	case err != nil:
+		return "inexpressible"
+	case q == '"':
+		return "dq"
+	case q == '\'':
+		return "sq"
+	}
+	return "bare"
 }
 
 // Denotes gives the structure a token list stands for; error when the list is
